@@ -26,7 +26,7 @@ class MultiplyOrchestration(Contract):
     props = ("C15", "C08")
     fragment = "L"
     doc = ("factor < 0: ArgumentError, nothing runs; factor 0: the segment is removed once and nothing else; factor 1: nothing runs; factor k >= 2: "
-           "requested copy names are checked BEFORE anything is changed (k-1 names, none in use, none twice: otherwise ArgumentError / NotUniqueError "
+           "requested copy names are checked BEFORE anything is changed (k-1 names, none carried by a line or referred to by one, none twice: otherwise ArgumentError / NotUniqueError "
            "and no step has run); then the counts are divided once by k, the segment is cloned once per copy name in order (k-1 clones: the "
            "requested names, or the k-1 computed ones), and links are distributed once iff a policy is given")
 
@@ -35,7 +35,8 @@ class MultiplyOrchestration(Contract):
         M = "gfapy/graph_operations/multiplication.py::Multiplication."
         factor, n = z3.Int("factor"), z3.Int("n_copy_names")
         given, dist = z3.Bool("copy_names_given"), z3.Bool("distribute_given")
-        in_use = z3.Const("name_in_use", AIB)
+        in_use = z3.Const("name_in_use", AIB)                  # the name of a line of the Gfa
+        referred = z3.Const("name_referred_to", AIB)           # a name that lines refer to although no line defines it yet (a placeholder carries it)
         k, j, j2 = z3.Int("k"), z3.Int("j"), z3.Int("j2")
         name_id = z3.Const("copy_name", AII)                     # identity of the i-th requested name
         auto_id = z3.Const("computed_name", AII)
@@ -54,14 +55,19 @@ class MultiplyOrchestration(Contract):
             yield ("val", None, [], bump(st, n_dist=st.zh["n_dist"] + 1))
         def m_rm(E, st, pos, kw):
             yield ("val", None, [], bump(st, n_rm=st.zh["n_rm"] + 1))
+        def m_line(E, st, pos, kw):
+            # Gfa.line(name): the line that carries the name (a placeholder for a name only referred to), else None
+            taken = z3.Or(in_use[pos[1].t], referred[pos[1].t])
+            yield ("val", Opt(z3.Not(taken), Obj(g.Line, "found")), [])
         models = {ctx.fn(M + "_Multiplication__divide_segment_and_connection_counts"): m_div,
                   ctx.fn(M + "_Multiplication__clone_segment_and_connections"): m_clone,
                   ctx.fn(M + "_distribute_links"): m_dist,
                   ctx.fn(M + "_segment_and_segment_name"): const_model(lambda s_, x: (seg, Ref(z3.IntVal(-7)))),
                   ctx.fn(M + "_compute_copy_names"): const_model(lambda s_, sn, f: auto),      # contract ComputeCopyNames: factor-1 fresh distinct names
                   ctx.fn("gfapy/lines/destructors.py::Destructors.rm"): m_rm,
-                  g.Gfa.names.fget: const_model(lambda s_: Names(in_use))}
-        clash = lambda upto: z3.Exists([j], z3.And(0 <= j, j < upto, z3.Or(in_use[name_id[j]], z3.Exists([j2], z3.And(0 <= j2, j2 < j, name_id[j2] == name_id[j])))))
+                  g.Gfa.names.fget: const_model(lambda s_: Names(in_use)),
+                  ctx.fn("gfapy/lines/finders.py::Finders.line"): m_line}
+        clash = lambda upto: z3.Exists([j], z3.And(0 <= j, j < upto, z3.Or(in_use[name_id[j]], referred[name_id[j]], z3.Exists([j2], z3.And(0 <= j2, j2 < j, name_id[j2] == name_id[j])))))
         label = "Multiplication.multiply"
         names_of = lambda: None
         def inv_check(i, st):
